@@ -469,8 +469,17 @@ func main() {
 			fmt.Fprintln(os.Stderr, err)
 			os.Exit(1)
 		}
-		for _, o := range sets {
+		gi := -1
+		if !p.Corpus {
+			fmt.Sscanf(p.Key, "p%d", &gi)
+		}
+		for k, o := range sets {
 			if p.Reject && o.Key != "o0" {
+				continue
+			}
+			// thorough: the corpus runs under every option set, a generated program under the default set and
+			// two others in rotation (one go build of everything is the dominating cost)
+			if gi >= 0 && len(sets) > 3 && k != 0 && k != 1+gi%(len(sets)-1) && k != 1+(gi+2)%(len(sets)-1) {
 				continue
 			}
 			jobs = append(jobs, job{p, o})
